@@ -43,26 +43,76 @@ def reference(spec, version=5):
     return ref
 
 
-def decode_stream(data, version=5):
-    """driver's SegmentCodec on the pushed bytes -> list of (stream id, opcode, frame length) or raises"""
+def decode_segments(data):
+    """the driver's SegmentCodec over a byte stream -> [(payload, is_self_contained)] (raises on CRC mismatch / truncation)"""
     from cassandra.connection import segment_codec_no_compression as codec
     buf = io.BytesIO(data)
-    payload = b''
-    frames = []
+    out = []
     while buf.tell() < len(data):
+        if len(data) - buf.tell() < codec.header_length_with_crc:
+            raise ValueError('truncated segment header')
         h = codec.decode_header(buf)
+        if len(data) - buf.tell() < h.payload_length + 4:
+            raise ValueError('truncated segment')
         seg = codec.decode(buf, h)
-        payload += seg.payload
-    pos = 0
+        out.append((seg.payload, bool(seg.is_self_contained)))
+    return out
+
+
+def frames_of(payload):
+    pos, frames = 0, []
     while pos < len(payload):
         if len(payload) - pos < 9:
             raise ValueError('truncated frame header')
         _v, _fl, stream, op, ln = struct.unpack('>BBhBi', payload[pos:pos + 9])
         if pos + 9 + ln > len(payload):
             raise ValueError('truncated frame body')
-        frames.append((stream, op, 9 + ln))
+        frames.append((stream, op, payload[pos:pos + 9 + ln]))
         pos += 9 + ln
     return frames
+
+
+def reassemble(segments):
+    """what a v5 peer does with the segment stream: a self-contained segment holds whole frames; a run of non-self-contained
+    segments holds ONE frame whose length is in its header.  -> (list of (stream, opcode, frame bytes), failure or None)"""
+    frames, pending = [], b''
+    for payload, sc in segments:
+        if sc:
+            if pending:
+                return frames, ('interleaved', 'a self-contained segment (another request) arrived inside the run of non-self-contained segments '
+                                'of a large request (%d of its bytes received so far)' % len(pending))
+            frames += frames_of(payload)
+        else:
+            pending += payload
+            if len(pending) >= 9:
+                ln = struct.unpack('>i', pending[5:9])[0]
+                if len(pending) > 9 + ln:
+                    return frames, ('interleaved', 'segments of two large requests are mixed')
+                if len(pending) == 9 + ln:
+                    frames += frames_of(pending)
+                    pending = b''
+    if pending:
+        return frames, ('truncated', 'a large request is incomplete: %d bytes of its segments arrived' % len(pending))
+    return frames, None
+
+
+def decode_stream(data, version=5):
+    """-> list of (stream id, opcode, frame length) or raises"""
+    frames, fail = reassemble(decode_segments(data))
+    if fail:
+        raise ValueError(fail[1])
+    return [(s, op, len(b)) for s, op, b in frames]
+
+
+def reference_frames(spec, version=5):
+    """the CQL frame of every message as the protocol encoder produces it: {stream id: frame bytes}"""
+    from cassandra.protocol import ProtocolHandler
+    ref = {}
+    for t, sizes in enumerate(spec):
+        for i, n in enumerate(sizes):
+            ref[sid(t, i)] = ProtocolHandler.encode_message(message(t, i, n), sid(t, i), version, compressor=None,
+                                                            allow_beta_protocol_version=(version == 6))
+    return ref
 
 
 def run_schedule(spec, schedule, version=5):
@@ -79,21 +129,26 @@ def run_schedule(spec, schedule, version=5):
     return conn.sent, [repr(e) for e in r.errors if e is not None], len(r.trace)
 
 
-def oracle(spec, ref, pushed, version=5):
-    """the statement on what reached push(): every message whole, exactly once, per-thread order -> (class, detail) or None"""
+def oracle(spec, ref, pushed, version=5, frames_ref=None):
+    """the statement on what reached push(), read as a v5 peer reads it (pushes concatenated in the order push() was called,
+    which is the order both reactors write them): every request whole, exactly once, per-thread order -> (class, detail) or None"""
+    frames_ref = frames_ref or reference_frames(spec, version)
+    try:
+        segs = decode_segments(b''.join(pushed))
+    except Exception as e:
+        return ('garbled', 'the pushed bytes are not a valid segment stream: %s: %s' % (type(e).__name__, e))
+    try:
+        frames, fail = reassemble(segs)
+    except Exception as e:
+        return ('garbled', 'segment payloads do not reassemble into frames: %s: %s' % (type(e).__name__, e))
+    if fail:
+        return fail
     seen = []
-    for j, b in enumerate(pushed):
-        try:
-            frames = decode_stream(b, version)
-        except Exception as e:
-            return ('garbled', 'push #%d is not a valid segment stream: %s: %s' % (j, type(e).__name__, e))
-        if len(frames) != 1:
-            return ('garbled', 'push #%d carries %d frames' % (j, len(frames)))
-        s = frames[0][0]
-        if s not in ref:
-            return ('foreign', 'push #%d carries unknown stream id %d' % (j, s))
-        if b != ref[s]:
-            return ('garbled', 'push #%d (stream %d) differs from the message sent alone' % (j, s))
+    for s, _op, b in frames:
+        if s not in frames_ref:
+            return ('foreign', 'unknown stream id %d on the wire' % s)
+        if b != frames_ref[s]:
+            return ('garbled', 'the frame on stream %d differs from the request that was sent' % s)
         if s in seen:
             return ('duplicated', 'the request on stream %d (thread %d, message %d) was written twice' % (s, (s - 1) // 16, (s - 1) % 16))
         seen.append(s)
@@ -159,4 +214,15 @@ def audit_send_msg(repo):
                 b = n.args[0] if n.args else None
                 if not (isinstance(b, ast.Name) and b.id in fresh):
                     probs.append('segments are assembled in a buffer that is not a fresh local io.BytesIO() (line %d)' % n.lineno)
+    # one request = ONE push(): the reactors keep the bytes of one push() contiguous, nothing else
+    pushes = [n for n in ast.walk(fn) if isinstance(n, ast.Call) and isinstance(n.func, ast.Attribute) and n.func.attr == 'push'
+              and isinstance(n.func.value, ast.Name) and n.func.value.id == 'self']
+    in_loop = set()
+    for n in ast.walk(fn):
+        if isinstance(n, (ast.For, ast.While)):
+            for sub in ast.walk(n):
+                in_loop.add(id(sub))
+    if len(pushes) != 1 or any(id(c) in in_loop for c in pushes):
+        probs.append('send_msg hands a request to push() in %d call site(s)%s: the segments of one request must go out in ONE push()'
+                     % (len(pushes), ' inside a loop' if any(id(c) in in_loop for c in pushes) else ''))
     return sorted(set(probs))
